@@ -79,6 +79,7 @@ class Node:
     none_label: bool = False  # ... plus None as the returned label
     label_slots: int = 1
     want_max: int = 0  # recurrent dest: asks for next_iteration `want` times, want in [0, want_max]
+    rec_none: bool = False  # ... and may pass None as the data of an iteration (symbolic per iteration)
     attempts: Optional[int] = None
     delay: Optional[int] = None
     exceptions: Optional[Tuple[str, ...]] = None  # names: 'E1', 'E2'
@@ -257,6 +258,21 @@ class Behaviour:
             return "?nocase"
         return None
 
+    def rec_offset(self, nd: Node) -> Any:
+        """data = value + offset; the offset is symbolic so that falsy data (0) is among the cases"""
+        nm = self._n(nd.name + ".recoff")
+        if nm in self.fixed:
+            return self.fixed[nm]
+        return self.sym.int(nm, -8, 8)
+
+    def rec_data_is_none(self, nd: Node, k: int) -> bool:
+        if not nd.rec_none:
+            return False
+        nm = self._n("%s.datanone%d" % (nd.name, min(k, 2)))
+        if nm in self.fixed:
+            return bool(self.fixed[nm])
+        return self.sym.bool(nm)
+
     def want(self, nd: Node) -> Any:
         if nd.want_max <= 0:
             return 0
@@ -330,7 +346,9 @@ class RunCtx:
         self.save_calls = 0
         self.ev_fail_at: Any = -1
         self.save_fail_at: Any = -1
-        self.collab_dur: Any = 0
+        self.collab_dur: Any = 0  # duration of every event callback
+        self.save_dur: Any = 0  # duration of every artifact save
+        self.ev_durs: Dict[str, Any] = {}  # per event name (overrides collab_dur)
         self.store_write_once = False
         self.hold: Optional[set] = None  # nodes whose bodies never complete (C06)
 
@@ -402,7 +420,7 @@ class RunCtx:
             rc = self.rec_count.get(inv.node, 0)
             if rc < beh.want(nd):
                 self.rec_count[inv.node] = rc + 1
-                data = v + REC_DATA_OFFSET
+                data = None if beh.rec_data_is_none(nd, rc) else v + beh.rec_offset(nd)
                 inv.outcome = ("rec", data)
                 self._rec("end", inv.node, ("rec", inv.k))
                 return instance.next_iteration(data)
@@ -500,7 +518,8 @@ def build_classes(spec: Spec) -> Dict[str, type]:
                 ann[pname] = M.Input(classes[m.node])
             elif isinstance(m, Sw):
                 ann[pname] = M.SwitchCase(switch=classes[m.switch],
-                                          cases=[(lab, classes[c]) for lab, c in m.cases], name=m.name)
+                                          cases=[(lab, classes[c]) for lab, c in m.cases],
+                                          name=None if m.name.startswith("?unnamed") else m.name)
             elif isinstance(m, OneOf):
                 ann[pname] = M.InputOneOf([classes[c] for c in m.nodes])
             elif isinstance(m, Rec):
@@ -522,8 +541,9 @@ def make_event_manager() -> type:
             rc.ev_calls += 1
             n = rc.ev_calls
             rc.events.append((rc._rec("ev", name, kw.get("node_id")), name, kw, ctx))
-            if rc.collab_dur:
-                await asyncio.sleep(rc.collab_dur)
+            d = rc.ev_durs.get(name, rc.collab_dur) if rc.ev_durs else rc.collab_dur
+            if d:
+                await asyncio.sleep(d)
             if n == rc.ev_fail_at:
                 raise CollabError("event", name, n)
 
@@ -555,8 +575,8 @@ def make_store() -> type:
             rc.save_calls += 1
             n = rc.save_calls
             rc._rec("save", node_id, None)
-            if rc.collab_dur:
-                await asyncio.sleep(rc.collab_dur)
+            if rc.save_dur:
+                await asyncio.sleep(rc.save_dur)
             if n == rc.save_fail_at:
                 raise CollabError("save", node_id, n)
             if rc.store_write_once and any(s[1] == node_id for s in rc.saves):
